@@ -3,7 +3,7 @@
 #   topic GSAPParse     gsap.go (*gsap).sort, (*gsap).Parse              proofs LzProofs/GenGSAPLemmas.lean, GenGSAPLoop.lean, GenGSAPParse.lean
 #   topic GSAPInit      gsap.go (*gsap).init, Reset, Shrink              proofs LzProofs/GenGSAPInit.lean
 #
-# For every mutant: copy the repository to <verif>/scratch-repo, apply one small semantic
+# For every mutant: copy the repository to a fresh directory under /tmp, apply one small semantic
 # change, regenerate LzModel/Generated/Code*.lean from the copy into a COPY of the lake
 # project, and build LzProofs.GenGSAPParse LzProofs.GenGSAPInit there.
 #   kind proof    : the build must FAIL (the failing theorems are listed)
@@ -21,7 +21,7 @@ REPO="${REPO:-/repo}"
 SCRATCH="$(mktemp -d /tmp/pf-gengsap-selftest.XXXXXX)"
 LEAN="$SCRATCH/lean"
 GEN="$LEAN/LzModel/Generated"
-MUT="$HERE/scratch-repo"
+MUT="$(mktemp -d /tmp/pf-mutrepo.XXXXXX)/scratch-repo"   # scratch copies of the library live outside /verif and /repo
 EXTRACT="$SCRATCH/extract"
 TARGETS="${TARGETS:-LzProofs.GenGSAPParse LzProofs.GenGSAPInit}"
 bad=0; good=0; total=0
